@@ -15,7 +15,11 @@ def resolve_sheet(sheet_str):
         # string.
         return sheet_str
 
-    return sheet_match.group("quoted") or sheet_match.group("notquoted")
+    quoted = sheet_match.group("quoted")
+    if quoted:
+        # Inside a quoted sheet title an apostrophe is written twice.
+        return quoted.replace("''", "'")
+    return sheet_match.group("notquoted")
 
 
 def resolve_address(addr):
